@@ -665,6 +665,41 @@ fn gen_lzw_plain(r: &mut Rng, big: bool) -> Vec<u8> {
         _ => (0..n).map(|_| *r.pick(&[0u8, 1, 255])).collect(),
     }
 }
+/// the harness's own rendering of the reference ENCODER of lean/LopdfModel/Spec/LzwCodec.lean (ISO 32000-1 §7.4.4):
+/// clear code first, greedy longest match, width rule seen from the decoder (`EarlyChange`), clear again when all
+/// 12-bit codes are used, EOD, MSB-first packing with zero padding. Compared byte for byte with `lzwenc`.
+fn ref_lzw_encode(x: &[u8], early: bool) -> Vec<u8> {
+    struct Bits { out: Vec<u8>, acc: u32, n: u32 }
+    impl Bits {
+        fn put(&mut self, code: usize, wd: u32) {
+            self.acc = (self.acc << wd) | code as u32; self.n += wd;
+            while self.n >= 8 { self.out.push((self.acc >> (self.n - 8)) as u8); self.n -= 8; self.acc &= (1 << self.n) - 1; }
+        }
+        fn finish(mut self) -> Vec<u8> { if self.n > 0 { self.out.push((self.acc << (8 - self.n)) as u8); } self.out }
+    }
+    let bump = |wd: u32, next: usize| if wd < 12 && next + early as usize >= (1usize << wd) { wd + 1 } else { wd };
+    let mut bits = Bits { out: vec![], acc: 0, n: 0 };
+    bits.put(256, 9);
+    let mut table: std::collections::HashMap<Vec<u8>, usize> = std::collections::HashMap::new();
+    let mut wd = 9u32;
+    let mut w: Vec<u8> = vec![];
+    let code_of = |table: &std::collections::HashMap<Vec<u8>, usize>, w: &Vec<u8>| if w.len() == 1 { w[0] as usize } else { 258 + table[w] };
+    for &b in x {
+        if w.is_empty() { w.push(b); continue; }
+        let mut wb = w.clone(); wb.push(b);
+        if table.contains_key(&wb) { w = wb; continue; }
+        bits.put(code_of(&table, &w), wd);
+        wd = bump(wd, 258 + table.len());
+        let idx = table.len();
+        table.insert(wb, idx);
+        if table.len() == 3838 { bits.put(256, wd); table.clear(); wd = 9; }
+        w = vec![b];
+    }
+    if !w.is_empty() { bits.put(code_of(&table, &w), wd); wd = bump(wd, 258 + table.len()); }
+    bits.put(257, wd);
+    bits.finish()
+}
+
 /// every result the model takes from weezl is re-derived by the executable Lean specification of LZW
 fn run_lzw(c: &mut Ctx) {
     // known answer: the example of ISO 32000-1 §7.4.4.2 (codes 256 45 258 258 65 259 66 257)
@@ -695,6 +730,24 @@ fn run_lzw(c: &mut Ctx) {
         if dec != plain { c.oracle_fail("lzw-weezl", "weezl does not decode what it encoded", json!({"early": early, "plain_len": plain.len()})); }
         c.corr(format!("lzwspec {} {}", early as u8, hex_tok(&enc)), format!("eod {}", hex_tok(&dec)));
         // the other EarlyChange setting on the same bytes (the data then usually goes wrong at the first width change): outputs only
+        // the proved reference ENCODER: harness rendering == Lean `lzwEncode` (byte for byte), and weezl as well as
+        // lopdf's LZWDecode decode its output to the plaintext; the spec decoders do so too (lzwspec)
+        if plain.len() <= 6000 || r.chance(1, 3) {
+            let renc = ref_lzw_encode(&plain, early);
+            c.corr(format!("lzwenc {} {}", early as u8, hex_tok(&plain)), format!("ok {}", hex_tok(&renc)));
+            c.corr(format!("lzwspec {} {}", early as u8, hex_tok(&renc)), format!("eod {}", hex_tok(&plain)));
+            c.count("lzwenc.cases");
+            if renc.len() * 8 / 9 > 3850 { c.count("lzwenc.table_full_clear"); }
+            let (wout, wok) = ext_lzw_status(&renc, early);
+            if !wok || wout != plain { c.oracle_fail("lzw-spec-encoder-weezl", "weezl does not decode the output of the reference LZW encoder to the plaintext", json!({"early": early, "plain": hex(&plain[..plain.len().min(64)]), "plain_len": plain.len(), "clean": wok, "decoded_len": wout.len()})); }
+            let mut s = Stream::new(Dictionary::new(), renc.clone());
+            s.dict.set("Filter", Object::Name(b"LZWDecode".to_vec()));
+            if !early || r.chance(1, 2) { let mut pd = Dictionary::new(); pd.set("EarlyChange", Object::Integer(early as i64)); s.dict.set("DecodeParms", Object::Dictionary(pd)); }
+            match guard(|| s.decompressed_content()) {
+                Ok(Ok(v)) if v == plain => {}
+                other => c.oracle_fail("lzw-spec-encoder-lopdf", "LZWDecode of the reference encoder's output is not the plaintext", json!({"early": early, "plain_len": plain.len(), "result": out_reply(&other).chars().take(80).collect::<String>()})),
+            }
+        }
         if r.chance(1, 4) {
             let (other, ok) = ext_lzw_status(&enc, !early);
             if ok { c.corr(format!("lzwspec {} {}", !early as u8, hex_tok(&enc)), format!("eod {}", hex_tok(&other))); c.count("lzwspec.wrong_early_clean"); }
@@ -929,6 +982,18 @@ fn run_stale_parms(c: &mut Ctx) {
 // ---------------------------------------------------------------- canonical witnesses
 
 fn run_witnesses(c: &mut Ctx) {
+    // tie of Lean `decompress_empty_filter_witness`: `Filter []` — get_plain_content returns the content,
+    // decompress() replaces it by the empty string (outside the property's chains of length 1..3; reported, not registered)
+    if let Some(_) = c.case("witness.empty_filter", 0) {
+        let mut d = Dictionary::new();
+        d.set("Filter", Object::Array(vec![]));
+        let s = Stream::new(d, vec![1, 2, 3]);
+        let before = guard(|| s.get_plain_content());
+        let _ = decode_and_corr(c, &s);
+        let mut s2 = s.clone();
+        let _ = s2.decompress();
+        c.count(if matches!(&before, Ok(Ok(v)) if v == &[1u8, 2, 3]) && s2.content.is_empty() { "empty_filter.decompress_erases_content" } else { "empty_filter.decompress_keeps_content" });
+    }
     // regression: F-C09-a (repaired by e2fc7b5) — Average must halve the SUM of left and above
     if let Some(_) = c.case("witness.avg", 0) {
         let got = real_row(3, 1, &[100, 200], &[10, 20]);
